@@ -94,7 +94,7 @@ func c04deferredwriters(c *an.Ctx) {
 			if st, isStore := a.instr.(*ssa.Store); isStore {
 				if fa, isFA := st.Addr.(*ssa.FieldAddr); isFA {
 					if call, isCall := an.Strip(fa.X).(*ssa.Call); isCall {
-						if g := an.StaticCallee(call); g != nil && g.Name() == "NewMessage" {
+						if g := an.StaticCallee(call); g != nil && an.BaseName(g) == "NewMessage" {
 							ok = true
 						}
 					}
